@@ -371,3 +371,16 @@ Theorem C16_oneline_reopen_refuted :
     /\ s_disk (run_steps repaired std_lookup true (initial b) [SWrite t; SUndo]) = b.
 Proof. exact oneline_reopen_refuted. Qed.
 Print Assumptions C16_oneline_reopen_refuted.
+
+(* HISTORY: the findings C16-import-above-header (fixed 0fb88c4), C16-move-takes-header (fixed 495d665) and
+   C16-move-above-blank-header (fixed 40406b4) shared this mechanism, which stays a property of write_file itself:
+   the refactoring's new text no longer has the coding line on its first two lines, so the hypothesis
+   "cookie_of new = cookie_of old" of C16_change_preserves_rest fails and the file is written as UTF-8 *)
+Theorem C16_edit_moving_declaration_refuted :
+  exists b new b' expected,
+    declared_codec repaired std_lookup b = Some latin1 /\ enc latin1 (fst (from_bytes repaired std_lookup b)) = Some b
+    /\ cookie_of new = None /\ cookie_of b = Some latin_1_name
+    /\ change_do repaired std_lookup b None new None = WBytes b'
+    /\ enc latin1 new = Some expected /\ b' <> expected.
+Proof. exact edit_moving_declaration_refuted. Qed.
+Print Assumptions C16_edit_moving_declaration_refuted.
